@@ -9,6 +9,7 @@
 //   name <hex of name>              message_digest::create_by_name
 //   cbc  <bits> <key> <iv> <msg>    cbc: one-shot and chunked encrypt/decrypt, IV dependence
 //   cbcst <bits> <op>...            status machine: k<n> i<n> n e d
+//   hexkey <hex>                   private/tohex.h writer, read back through key(std::string)
 //   big  <algo> <nbytes> <chunk>   message byte i = i mod 251 generated here, fed in chunks (counter carries)
 //   rekey <bits> <key1> <key2> <iv> <plain> <used>   second set_key on one object
 //   sess hmac <algo> <key> <plain> | sess aes <cbc> <mac> <cbckey> <mackey> <plain>
@@ -17,6 +18,7 @@
 #include <booster/backtrace.h>
 #include "hmac_encryptor.h"
 #include "aes_encryptor.h"
+#include "tohex.h"
 #include <string.h>
 #include <stdlib.h>
 #include <unistd.h>
@@ -200,6 +202,20 @@ int main(int argc,char **argv)
 				a->set_iv(iv.data(),iv.size());
 				std::string c3=crypt(*a,plain,true);
 				out<<"cbc "<<hex(c1)<<" chain="<<(c1==c2)<<" rt="<<(p1==plain)<<" rtb="<<(p2==plain)<<" ivind="<<ivind<<" reiv="<<(c3==c1);
+			}
+		}
+		else if(v.size()==2 && v[0]=="hexkey") {
+			// the writer used by cppcms_make_key (private/tohex.h) and the reader key::set_hex / key(std::string)
+			std::string data=unhex(v[1]);
+			std::vector<char> txt(data.size()*2+1+8,char(0xA5));
+			cppcms::impl::tohex(data.data(),data.size(),&txt[0]);
+			bool over=false;
+			for(size_t i=data.size()*2+1;i<txt.size();i++) if(txt[i]!=char(0xA5)) over=true;
+			if(over || txt[data.size()*2]!=0) out<<"hexkey OVERRUN";
+			else {
+				std::string t(&txt[0],data.size()*2);
+				cr::key k(t);
+				out<<"hexkey "<<hex(t)<<" rt="<<(std::string(k.data(),k.size())==data);
 			}
 		}
 		else if(v.size()==4 && v[0]=="big") {
